@@ -6,7 +6,7 @@
      200-299  DNS
      300-399  ICMPv6
      400-499  LLDP *)
-From Erbium Require Import Lib.Base Model.DhcpCodec Model.EntryC12 Model.EntryC05Lldp Model.EntryC05DhcpOpt Model.EntryC05Icmp6.
+From Erbium Require Import Lib.Base Model.DhcpCodec Model.EntryC12 Model.EntryC05Lldp Model.EntryC05DhcpOpt Model.EntryC05Icmp6 Model.DnsEntry.
 
 (* kind 5: [5; bytes; stage; followup]
    stage: 0 = a reply frame was produced, 1 = dropped with an error / no reply,
@@ -54,6 +54,7 @@ Definition check_C05 (ts : list N) : list N :=
   | 6 :: r => check_rig 6 r
   | 7 :: r => check_rig 7 r
   | 8 :: r => check_rig 8 r
+  | 200 :: r => shift_verdict 200 (check_dns r)       (* DNS decoder / encoder: the C14 case kinds *)
   | k :: _ =>
     if (100 <=? k) && (k <? 200) then check_C05_dhcpopt ts
     else if (300 <=? k) && (k <? 400) then shift_verdict 300 (check_C05_icmp6 ts)
